@@ -261,3 +261,158 @@ theorem outputBlocks_ok {cap : Nat} (hc : 0 < cap) (nruns nout : Nat) (h0 : nrun
     · rw [if_neg h1]; exact streamBlocks_ok hc nout
 
 end KV.Sort
+
+namespace KV.Sort
+open List
+
+theorem take_bytesOf {s : Nat} : ∀ (recs : List (List Nat)) (k : Nat), Uniform s recs →
+    (bytesOf recs).take (k * s) = bytesOf (recs.take k)
+  | [], k, _ => by simp [bytesOf]
+  | r :: rs, 0, _ => by simp [bytesOf]
+  | r :: rs, k + 1, h => by
+    have hr := h r (by simp)
+    have ih := take_bytesOf (s := s) rs k (fun x hx => h x (by simp [hx]))
+    simp only [bytesOf, flatten_cons, take_succ_cons] at ih ⊢
+    have : (k + 1) * s = r.length + k * s := by rw [Nat.succ_mul, hr]; omega
+    rw [this, take_length_add_append, ih]
+
+theorem drop_bytesOf {s : Nat} : ∀ (recs : List (List Nat)) (k : Nat), Uniform s recs →
+    (bytesOf recs).drop (k * s) = bytesOf (recs.drop k)
+  | [], k, _ => by simp [bytesOf]
+  | r :: rs, 0, _ => by simp [bytesOf]
+  | r :: rs, k + 1, h => by
+    have hr := h r (by simp)
+    have ih := drop_bytesOf (s := s) rs k (fun x hx => h x (by simp [hx]))
+    simp only [bytesOf, flatten_cons, drop_succ_cons] at ih ⊢
+    have : (k + 1) * s = r.length + k * s := by rw [Nat.succ_mul, hr]; omega
+    rw [this, drop_length_add_append, ih]
+
+theorem Uniform.take {s : Nat} {recs : List (List Nat)} (h : Uniform s recs) (k : Nat) : Uniform s (recs.take k) :=
+  fun r hr => h r (mem_of_mem_take hr)
+theorem Uniform.drop {s : Nat} {recs : List (List Nat)} (h : Uniform s recs) (k : Nat) : Uniform s (recs.drop k) :=
+  fun r hr => h r (mem_of_mem_drop hr)
+
+/-- cutting a prefix / suffix of whole records commutes with cutting into records -/
+theorem recordsOf_take {s : Nat} (hs : 0 < s) (buf : Buf) (hd : s ∣ buf.length) (k : Nat) :
+    recordsOf s (buf.take (k * s)) = (recordsOf s buf).take k := by
+  have hu := recordsOf_uniform (s := s) buf
+  have hb := bytesOf_recordsOf hs buf hd
+  conv => lhs; rw [← hb]
+  rw [take_bytesOf _ k hu, recordsOf_bytesOf hs _ (hu.take k)]
+
+theorem recordsOf_drop {s : Nat} (hs : 0 < s) (buf : Buf) (hd : s ∣ buf.length) (k : Nat) :
+    recordsOf s (buf.drop (k * s)) = (recordsOf s buf).drop k := by
+  have hu := recordsOf_uniform (s := s) buf
+  have hb := bytesOf_recordsOf hs buf hd
+  conv => lhs; rw [← hb]
+  rw [drop_bytesOf _ k hu, recordsOf_bytesOf hs _ (hu.drop k)]
+
+theorem recordsOf_eq_nil {s : Nat} (hs : 0 < s) (buf : Buf) (hd : s ∣ buf.length) :
+    recordsOf s buf = [] ↔ buf = [] := by
+  constructor
+  · intro h
+    have := bytesOf_recordsOf hs buf hd
+    rw [h] at this
+    exact this.symm
+  · intro h; subst h; simp [recordsOf, chunk]
+
+/-- byte-level invariant of an entry: whole records in the buffer and on disk, buffer not empty -/
+def ByteEntry.wf (E : Nat) (e : ByteEntry) : Prop := E ∣ e.buf.length ∧ E ∣ e.file.length ∧ e.buf ≠ []
+
+theorem byteEntry_read {E cap : Nat} (hE : 0 < E) (hc : 0 < cap) (hcap : E ∣ cap) (file : Buf) (hf : E ∣ file.length) :
+    (ByteEntry.read cap file).map (ByteEntry.abs E) = BufEntry.read (cap / E) (recordsOf E file) ∧
+    ∀ e, ByteEntry.read cap file = some e → e.wf E := by
+  obtain ⟨c, rfl⟩ := hcap
+  rw [Nat.mul_div_cancel_left c hE]
+  have hcm : E * c = c * E := Nat.mul_comm E c
+  cases file with
+  | nil => simp [ByteEntry.read, BufEntry.read, recordsOf, chunk]
+  | cons x xs =>
+    have hne : recordsOf E (x :: xs) ≠ [] := fun h => by
+      have := (recordsOf_eq_nil hE (x :: xs) hf).mp h; cases this
+    refine ⟨?_, ?_⟩
+    · simp only [ByteEntry.read, Option.map_some, ByteEntry.abs]
+      cases hr : recordsOf E (x :: xs) with
+      | nil => exact absurd hr hne
+      | cons r rs =>
+        simp only [BufEntry.read, Option.some.injEq, BufEntry.mk.injEq]
+        rw [← hr, hcm]
+        exact ⟨recordsOf_take hE _ hf c, recordsOf_drop hE _ hf c⟩
+    · intro e he
+      simp only [ByteEntry.read, Option.some.injEq] at he
+      subst he
+      obtain ⟨a, ha⟩ := hf
+      refine ⟨?_, ?_, ?_⟩
+      · simp only [length_take]
+        rw [ha]
+        rcases Nat.le_total c a with h | h
+        · rw [Nat.min_eq_left (Nat.mul_le_mul_left E h)]; exact ⟨c, rfl⟩
+        · rw [Nat.min_eq_right (Nat.mul_le_mul_left E h)]; exact ⟨a, rfl⟩
+      · simp only [length_drop]
+        rw [ha, ← Nat.mul_sub]; exact ⟨a - c, rfl⟩
+      · intro h
+        have h' : (x :: xs).take (E * c) = [] := h
+        have : ((x :: xs).take (E * c)).length = 0 := by rw [h']; rfl
+        simp only [length_take, length_cons] at this
+        omega
+
+/-- **byte-level entries refine record-level buffered entries** when the buffer capacity is a
+multiple of the entry size: `Increment` never jumps past `buffer_end_`, commutes with cutting
+into records, and keeps the invariant. -/
+theorem byteEntry_increment {E cap : Nat} (hE : 0 < E) (hc : 0 < cap) (hcap : E ∣ cap) (e : ByteEntry) (hw : e.wf E) :
+    ∃ r, e.increment E cap = .ok r ∧ r.map (ByteEntry.abs E) = (ByteEntry.abs E e).increment (cap / E) ∧
+      ∀ e', r = some e' → e'.wf E := by
+  obtain ⟨⟨a, ha⟩, hfile, hne⟩ := hw
+  have ha0 : 0 < a := by
+    rcases Nat.eq_zero_or_pos a with h | h
+    · subst h
+      exact absurd (List.eq_nil_of_length_eq_zero (by omega)) hne
+    · exact h
+  have hge : E ≤ e.buf.length := by rw [ha]; exact Nat.le_mul_of_pos_right E ha0
+  unfold ByteEntry.increment
+  rw [if_neg (by omega)]
+  have hbd : E ∣ e.buf.length := ⟨a, ha⟩
+  have hd1 := recordsOf_drop hE e.buf hbd 1
+  rw [Nat.one_mul] at hd1
+  have hlen : (recordsOf E e.buf).length = a := by
+    rw [recordsOf_length, ha, Nat.mul_div_cancel_left a hE]
+  by_cases h1 : e.buf.length = E
+  · rw [if_pos h1]
+    obtain ⟨hr1, hr2⟩ := byteEntry_read hE hc hcap e.file hfile
+    refine ⟨_, rfl, ?_, hr2⟩
+    rw [hr1]
+    simp only [BufEntry.increment, ByteEntry.abs]
+    have ha1 : a = 1 := by
+      have : E * a = E * 1 := by rw [← ha, h1, Nat.mul_one]
+      exact Nat.eq_of_mul_eq_mul_left hE this
+    have : (recordsOf E e.buf).drop 1 = [] := drop_eq_nil_of_le (by omega)
+    rw [this]
+  · rw [if_neg h1]
+    have ha2 : 2 ≤ a := by
+      rcases Nat.lt_or_ge a 2 with h | h
+      · have : a = 1 := by omega
+        subst this; omega
+      · exact h
+    refine ⟨_, rfl, ?_, ?_⟩
+    · simp only [Option.map_some, ByteEntry.abs, BufEntry.increment]
+      rw [hd1]
+      cases hdr : (recordsOf E e.buf).drop 1 with
+      | nil =>
+        have := congrArg List.length hdr
+        simp only [length_drop, length_nil] at this
+        omega
+      | cons b bs => rfl
+    · intro e' he'
+      simp only [Option.some.injEq] at he'
+      subst he'
+      refine ⟨?_, hfile, ?_⟩
+      · simp only [length_drop]; rw [ha]
+        exact ⟨a - 1, by rw [Nat.mul_sub, Nat.mul_one]⟩
+      · intro h
+        have h' : e.buf.drop E = [] := h
+        have : (e.buf.drop E).length = 0 := by rw [h']; rfl
+        simp only [length_drop] at this
+        have : E * 2 ≤ E * a := Nat.mul_le_mul_left E ha2
+        omega
+
+end KV.Sort
